@@ -59,6 +59,10 @@ class C12:
     def generate(self, rng, tier='quick'):
         b = Builder(rng)
         family = rng.choice(['sphere', 'sphere', 'pair'])
+        # now and then (nearly) everything is free: more than ten parameters
+        many = rng.random() < 0.12
+        if many:
+            family = 'pair'
         n = rng.randint(4, 12)
         m = rng.randint(4, 12)
         spacing = rng.choice([0.1, 0.15])
@@ -100,13 +104,13 @@ class C12:
         truth = {}
 
         def maybe(name, value, width, p=0.6, kind=None):
-            if rng.random() < p:
+            if rng.random() < (0.97 if many else p):
                 free[name] = prior_spec(rng, name, value, width, kind)
                 truth[name] = value
                 return free[name]
             return value
         members = []
-        nsph = 1 if family == 'sphere' else 2
+        nsph = 1 if family == 'sphere' else (3 if many else 2)
         for j in range(nsph):
             cx = rfloat(rng, 0.2 * ext[0], 0.8 * ext[0], 3) + 1.4 * j
             cy = rfloat(rng, 0.2 * ext[1], 0.8 * ext[1], 3)
@@ -339,10 +343,13 @@ class C12:
         mem = self.subst(cfg, v)
         if any(mm['r'] < 0 for mm in mem):
             return -math.inf, 'invalid'
-        if cfg['frac'] is not None and cfg['nsph'] == 2:
-            d = math.dist(mem[0]['center'], mem[1]['center'])
-            largest = max(0, mem[0]['r'] + mem[1]['r'] - d)
-            if largest > min(mem[0]['r'], mem[1]['r']) * 2 * cfg['frac']:
+        if cfg['frac'] is not None and cfg['nsph'] >= 2:
+            largest = 0
+            for i in range(len(mem)):
+                for j in range(i + 1, len(mem)):
+                    d = math.dist(mem[i]['center'], mem[j]['center'])
+                    largest = max(largest, mem[i]['r'] + mem[j]['r'] - d)
+            if largest > min(mm['r'] for mm in mem) * 2 * cfg['frac']:
                 return -math.inf, 'constraint'
         return total, None
 
